@@ -10,6 +10,7 @@ package handlers
 import (
 	"encoding/base64"
 	"errors"
+	"path/filepath"
 	"regexp"
 	"time"
 
@@ -47,6 +48,12 @@ func c10Compile(expr string) (*regexp.Regexp, error) {
 func c10Glob(pattern string) ([]string, error) {
 	if _, ok := fs.VerifFiles[pattern]; ok {
 		return []string{pattern}, nil
+	}
+	// the (only) in-memory file of C10f, matched with the real filepath.Match
+	if _, ok := fs.VerifFiles["/var/log/x.log"]; ok {
+		if m, err := filepath.Match(pattern, "/var/log/x.log"); err == nil && m {
+			return []string{"/var/log/x.log"}, nil
+		}
 	}
 	return nil, nil
 }
@@ -204,6 +211,9 @@ func VerifC10dSequence(k, subset int) {
 var c10fValues = []string{"-2", "-1", "0", "1", "2", "99999999999999999999", "x", ""}
 
 // what a client may put where the filter is expected (flag list + pattern)
+// how a client may spell the file argument
+var c10fPaths = []string{"", "/var/log//*.log", "/var/./log/*.log", "/var/log/../log/x.l*", "//var/log/x.log", "/var/log/*.log/", "/var/*/x.log"}
+
 var c10fFilters = []string{"regex:default x", "regex:invert x", "regex:noop x", "regex:invert,noop x", "regex:default,noop x",
 	"regex:noop,invert x", "regex:bogus x", "regex: x", "regex:default,invert", "regex:default", "x", ""}
 
@@ -237,8 +247,13 @@ func VerifC10fReadOptions(mode int) {
 	}
 	filter := c10fFilters[0]
 	if opts == "" {
-		// (with default options) every shape of the filter argument
+		// (with default options) every shape of the filter argument and every spelling of the file argument
 		filter = c10fFilters[verifrt.Choose("filter", len(c10fFilters))]
+		if filter == c10fFilters[0] {
+			if sp := verifrt.Choose("path-spelling", len(c10fPaths)); sp > 0 {
+				path = c10fPaths[sp]
+			}
+		}
 	}
 	c10Payload = word + opts + " " + path + " " + filter
 	h.Write([]byte("protocol 4.1 base64 @;"))
